@@ -6,5 +6,7 @@ CONSTANTS
   Part = "text"
   ListStyle = "versioned"
   Chains = FALSE
+  Configs = {"default"}
+  SampleConfigs = {}
 INVARIANT TextRefinesP
 CHECK_DEADLOCK FALSE
